@@ -33,6 +33,10 @@ from .sym import (
 )
 
 
+def _is_zero(z):
+    return z3.is_rational_value(z) and z.numerator_as_long() == 0
+
+
 class PathInfeasible(BaseException):
     pass
 
@@ -66,6 +70,7 @@ class PathCtx:
         self.trig_table = {}
         self.trig_args = {}
         self.fn_table = {}
+        self.fn_args = {}
         self.inputs: dict[str, z3.ExprRef] = {}
         self.cases: dict[str, object] = {}
         self.preset_cases = dict(preset_cases or {})
@@ -137,16 +142,24 @@ class PathCtx:
     # ---- fresh symbols ---------------------------------------------------------
     def fresh_fn(self, name, sort, *args):
         """A function application f(args) as a constant, one per distinct (name, args)."""
-        key = (name,) + tuple(z3.simplify(real_z(a)).sexpr() for a in args)
+        zargs = [z3.simplify(real_z(a)) for a in args]
+        key = (name,) + tuple(z.sexpr() for z in zargs)
         hit = self.fn_table.get(key)
         if hit is not None:
             return hit
+        # same arguments written differently: reuse the application when every difference simplifies to 0
+        for (k2, zs2), v in self.fn_args.items():
+            if k2 == name and len(zs2) == len(zargs):
+                if all(_is_zero(z3.simplify(a - b, som=True)) for a, b in zip(zargs, zs2)):
+                    self.fn_table[key] = v
+                    return v
         n = len(self.fn_table)
         if sort == "int":
             v = SInt(z3.Int(f"{name}!{n}"))
         else:
             v = SReal(z3.Real(f"{name}!{n}"))
         self.fn_table[key] = v
+        self.fn_args[(name, tuple(zargs))] = v
         return v
 
     def str_to_real(self, s: SStr) -> SReal:
